@@ -1,6 +1,9 @@
 //! Untyped ops (type field "-"): each ext_* module handles the ops it knows and
 //! returns None for the rest.
 pub fn run(op: &str, args: &[&str]) -> Option<String> {
+    if let Some(r) = crate::ext_array::run(op, args) {
+        return Some(r);
+    }
     if let Some(r) = crate::ext_schema::run(op, args) {
         return Some(r);
     }
